@@ -20,8 +20,9 @@ RULES = {
     'R9': 'the drain at fini really writes: qb_log_fini clears logger_inited before it stops the thread, so nothing the logging thread calls to write a record (the targets\' logger functions and what they call inside the library) may refuse or return early on !logger_inited - or fini stops the thread first',
     'R10': 'no call through an absent logger: every call through qb_log_target.logger is made only where that target\'s logger was seen to be non-NULL (QB_LOG_CONF_THREADED is accepted for targets that only have a vlogger, such as the blackbox)',
     'R11': 'what is queued is written before the routing changes: the functions control operations bracket their work with (pause, quiesce) write out every queued record after taking the thread\'s lock, and every change of what the logging thread does with a queued record - a store of a new value to a target\'s threaded switch, a change of the filters or tags of existing call sites (through helpers: judged at the callers), the custom filter function run over them - happens inside such a bracket (or in qb_log_fini after the thread was stopped)',
+    'R12': 'a logger that logs cannot dead-lock the writer: qb_log_thread_log_post takes the queue lock only after a test that the calling thread is not the one that is handing records to the targets (pthread_equal with the recorded writer), and every write of a queued record is made with the writer recorded',
 }
-FLOORS = {'R1': 11, 'R2': 5, 'R3': 4, 'R4': 5, 'R5': 5, 'R6': 3, 'R7': 3, 'R8': 2, 'R9': 3, 'R10': 2, 'R11': 5}
+FLOORS = {'R1': 11, 'R2': 5, 'R3': 4, 'R4': 5, 'R5': 5, 'R6': 3, 'R7': 3, 'R8': 2, 'R9': 3, 'R10': 2, 'R11': 5, 'R12': 2}
 
 LOCK = 'logt_wthread_lock'
 GUARDED = ('logt_print_finished_records', 'logt_memory_used', 'logt_dropped_messages')
@@ -69,6 +70,22 @@ def entry_locks(fns):
 
 
 ENTRY = {}
+WRITERS = ['qb_log_thread_log_write']
+
+
+def _find_writers(fns):
+    """qb_log_thread_log_write and the static functions of the unit that do nothing but hand one record to it (a wrapper that notes
+    who is writing): a call of one of them writes a record"""
+    out = ['qb_log_thread_log_write']
+    for g in fns:
+        if not g.static:
+            continue
+        calls = [ev for ev in g.events('CALL')]
+        wr = [ev for ev in calls if ev.callee == 'qb_log_thread_log_write']
+        if len(wr) == 1 and not g.natural_loops() and all(ev.callee in ('qb_log_thread_log_write', 'pthread_self') for ev in calls) and \
+                g.must_pass(('entry',), lambda ev: ev is wr[0])[0]:
+            out.append(g.name)
+    return out
 
 
 def lockset_of(f):
@@ -80,6 +97,7 @@ def run(ctx):
     fns = [f for f in prog.all_fns(files={'lib/log_thread.c'})]
     ENTRY.clear()
     ENTRY.update(entry_locks(fns))
+    WRITERS[:] = _find_writers(fns)
     # R1
     n = 0
     for f in fns:
@@ -95,6 +113,7 @@ def run(ctx):
     r4(ctx)
     r10(ctx)
     r11(ctx)
+    r12(ctx, fns)
     r5(ctx)
     r6(ctx, fns)
     r7(ctx, fns)
@@ -194,7 +213,7 @@ def r3(ctx):
                                            for n in walk(x.rhs if x.kind == 'STORE' else x.d.get('init') or {})) for x in defs)
     ctx.check('R3', 'takes-first-record', bool(dels) and first, dels[0] if dels else f, 'the worker removes the first (oldest) record',
               'the worker does not take the first record (order not preserved)')
-    wr = list(f.calls('qb_log_thread_log_write'))
+    wr = list(f.calls(*WRITERS))
     ctx.check('R3', 'writes-once-per-record', len(wr) == 1 and all(any(f.ev_dominates(d, w) for d in dels) for w in wr), wr[0] if wr else f,
               'each dequeued record is written once', 'a record is written %d times / before being dequeued' % len(wr))
     waits = [ev for ev in f.calls('sem_wait') if 'logt_print_finished' in estr(ev.args[0])]
@@ -226,7 +245,7 @@ def r4(ctx):
     dest = [ev for ev in s.events('CALL') if ev.callee in ('qb_thread_lock_destroy', 'sem_destroy')]
     ctx.check('R4', 'stop:destroy-after-join', bool(dest) and all(not s.may_follow(d, j) for d in dest for j in joins), dest[0] if dest else s,
               'lock and semaphores are destroyed after the join', 'the lock/semaphores are destroyed before the worker was joined')
-    wr = list(s.calls('qb_log_thread_log_write'))
+    wr = list(s.calls(*WRITERS))
     loops = s.natural_loops()
     drains = _drain_helpers(ctx.prog)
     if not wr and any(s.calls(d) for d in drains):
@@ -248,7 +267,7 @@ def _drain_helpers(prog):
     for g in prog.all_fns(files={'lib/log_thread.c'}):
         if not g.static:
             continue
-        wr = list(g.calls('qb_log_thread_log_write'))
+        wr = list(g.calls(*WRITERS))
         dl = list(g.calls('qb_list_del'))
         loops = g.natural_loops()
         if wr and dl and any(w.blk in body and any(d.blk in body for d in dl) for w in wr for body in loops.values()) and \
@@ -409,7 +428,9 @@ def r8(ctx, fns):
     n = 0
     for f in fns:
         at, _IN = lockset_of(f)
-        for ev in f.calls('qb_log_thread_log_write'):
+        for ev in f.calls(*WRITERS):
+            if f.name in WRITERS:
+                continue     # the wrapper itself: judged where it is called
             if f.name == 'qb_log_thread_log_post':
                 continue     # direct write while no thread exists (nothing to exclude)
             n += 1
@@ -581,3 +602,44 @@ def r11(ctx):
                               'the custom filter function is run over existing call sites while records may be queued')
     if n < 3:
         raise AnalysisBroken('R11: only %d routing changes found' % n)
+
+
+def r12(ctx, fns):
+    prog = ctx.prog
+    p = prog.fn('qb_log_thread_log_post')
+    locks = [ev for ev in p.events('CALL') if ev.callee == 'qb_thread_lock' and LOCK in estr(ev.args[0])]
+    if not locks:
+        raise AnalysisBroken('qb_log_thread_log_post: no lock')
+    # the variable compared with pthread_self()
+    eqs = [n for b in p.blocks.values() if b.cond is not None for n in walk(b.cond) if n.get('k') == 'call' and callee_of(n) == 'pthread_equal']
+    wvars = set()
+    for n in eqs:
+        for a in n['args']:
+            u = unwrap(a)
+            if u.get('k') == 'var' and u.get('sc') == 'g':
+                wvars.add(u['n'])
+
+    def not_the_writer(a, fb):
+        l = unwrap(a.l)
+        if callee_of(l) == 'pthread_equal' and a.op == '==' and a.rc == 0:
+            return True
+        # the "somebody is writing" flag being clear
+        return l.get('k') == 'var' and l.get('sc') == 'g' and a.op == '==' and a.rc == 0 and any(
+            l['n'] == estr(st.lhs) for g in fns for st in g.events('STORE') if g.name in WRITERS or any(c.callee in WRITERS for c in g.events('CALL')))
+    for lk in locks:
+        ctx.check('R12', 'post:not-from-the-writing-thread', bool(eqs) and p.uncut_path(lk, not_the_writer) is None, lk,
+                  'the queue lock is taken only by a thread that is not handing records to the targets',
+                  'qb_log_thread_log_post waits for the queue lock whoever calls it: a logger callback that logs is called with that lock held (by the logging '
+                  'thread, or by a control operation writing the queue out) and waits for its own thread for ever - the producer blocks behind it and qb_log_fini never returns')
+    # every write of a queued record records the writer first
+    n = 0
+    for g in fns:
+        for ev in g.events('CALL'):
+            if ev.callee == 'qb_log_thread_log_write' and g.name != 'qb_log_thread_log_post':
+                n += 1
+                rec = [st for st in g.events('STORE') if unwrap(st.lhs).get('k') == 'var' and unwrap(st.lhs)['n'] in wvars and callee_of(unwrap(st.rhs)) == 'pthread_self'
+                       and g.ev_dominates(st, ev)]
+                ctx.check('R12', '%s:writer-recorded' % g.name, bool(rec), ev, 'the writing thread is recorded before the record is handed to the targets',
+                          'a queued record is handed to the targets without recording which thread does it: a logger that logs is not recognised')
+    if n == 0:
+        raise AnalysisBroken('log_thread.c: no write of a queued record found')
